@@ -300,7 +300,7 @@ PROPS["C05"] = dict(
 EXTRA_RULE = {
  "C01": "file names use every letter (case folding of the whole alphabet); collision groups on the last hash slot (probe chains that wrap). V3/V4: the extended tables resolve every added name and confirm its name hash; members of 128 KiB..3 MB so that extended block-table entries of every width (below, at and past 64 bits) are built, each compared with the classic block entry and with Model.C01Bet byte for byte; the reader on 400/4000 arbitrary tables (any column widths 0..64, any bytes); 136 reads of an 8 MiB member in one process; one archive in three carries names whose extended-table byte is 0xFF or 0x80 (two of them colliding); the builder's hash-entry table and the candidates / confirmed index of 14 lookups per archive against Model.C01Het.",
  "C02": "two reference-written archives in three carry deleted markers (independent writer that added and removed files: Model writeArchiveTomb), names containing every letter incl. z.",
- "C03": "the in-tree sparse compressor byte for byte on every {0,x} string up to length 10/12 and run-structured inputs; ADPCM mono/stereo combined with every second-stage method on sine, square-wave and click signals; 560 decodes of a 2 MiB block in one process (no budget shared between calls). stereo ADPCM with one steady channel (left / right).",
+ "C03": "the in-tree sparse compressor byte for byte on every {0,x} string up to length 10/12 and run-structured inputs; ADPCM mono/stereo combined with every second-stage method on sine, square-wave and click signals; 560 decodes of a 2 MiB block in one process (no budget shared between calls). stereo ADPCM with one steady channel (left / right); the ADPCM encoder on 90/600 generated signals (drift, jumps, sine, full-scale alternation, noise; refused lengths included) and the decoder on its streams, on mutated streams (markers inserted, bits flipped, truncated, other bit shifts) and other declared sizes, byte for byte against Model.C03Adpcm.",
  "C05": "(attributes) special files parsed directly (7 flag sets x 3 block counts x 10 requested block counts); the last 1..8 bytes cut off every seed; every pair of hostile values over the first 8 dwords for DBC/patch/skin/attributes seeds. seeds for water tiles (MH2O header rows, instances, bitmaps, vertex data mutated field by field), chunked models (MD21 + every auxiliary chunk), modern and legacy .anim files, WDB2 (basic / extended) and WDB5 containers.",
  "C06": "adds whose data preparation fails after the early checks passed (unsupported selector combination, ADPCM on odd lengths), as new names and as replaces.",
  "C07": "reported counts against the harness' own bookkeeping (listed entries, entries the options exclude); fixed witness of D2 through rebuild.",
